@@ -182,7 +182,7 @@ pub fn gen_session(seed: u64, run: u64, thorough: bool) -> Session {
     let mut closed: BTreeSet<String> = BTreeSet::new();
     for _ in 0..nbody {
         let uri = rng.pick(&all_uris).clone();
-        let choice = rng.below(16);
+        let choice = rng.below(18);
         match choice {
             0..=2 => {
                 // valid change
@@ -290,6 +290,75 @@ pub fn gen_session(seed: u64, run: u64, thorough: bool) -> Session {
                     ops.push(PlannedOp::new(Op::ProbeText { uri: uri.clone() }));
                     models.insert(uri.clone(), DocModel { text });
                     closed.remove(&uri);
+                }
+            }
+            15 if invalid_budget > 0 => {
+                // protocol-level oddities around requests
+                invalid_budget -= 1;
+                match rng.below(5) {
+                    0 => {
+                        ops.push(PlannedOp::tagged(
+                            Op::Request { id: next_id, method: "textDocument/noSuchMethod".into(), uri: uri.clone(), pos: [0, 0], extra: json!({}) },
+                            "request.unknown_method",
+                        ));
+                        next_id += 1;
+                    }
+                    1 => {
+                        // cancel something that was never asked, or was answered long ago
+                        let id = if rng.chance(1, 2) { 777_000 + rng.below(5) as i64 } else { (next_id - 1).max(0) };
+                        ops.push(PlannedOp::tagged(Op::Cancel { id }, "cancelRequest.unknown_or_answered_id"));
+                    }
+                    2 => {
+                        ops.push(PlannedOp::tagged(
+                            Op::Raw { msg: json!({"jsonrpc":"2.0","method":"$/glasSimUnknown","params":{"x":1}}) },
+                            "notification.unknown_dollar_method",
+                        ));
+                    }
+                    3 => {
+                        let method = *rng.pick(REQ_METHODS);
+                        let params = match rng.below(4) {
+                            0 => json!({}),
+                            1 => json!({"textDocument": {"uri": uri}}),
+                            2 => json!({"textDocument": {"uri": 17}, "position": {"line": "x", "character": -1}}),
+                            _ => json!([1, 2, 3]),
+                        };
+                        // syntaxTree and semanticTokens/full are complete with the document alone
+                        ops.push(PlannedOp::tagged(
+                            Op::Raw { msg: json!({"jsonrpc":"2.0","id": next_id, "method": method, "params": params}) },
+                            "request.malformed_params",
+                        ));
+                        next_id += 1;
+                    }
+                    _ => {
+                        ops.push(PlannedOp::tagged(
+                            Op::Raw { msg: json!({"jsonrpc":"2.0","method":"workspace/didChangeConfiguration","params":{"settings": {"glas": rng.below(3)}}}) },
+                            "notification.didChangeConfiguration",
+                        ));
+                    }
+                }
+            }
+            16 if invalid_budget > 0 => {
+                // request whose column lies inside a surrogate pair
+                let mut found = None;
+                if let Some(m) = models.get(&uri) {
+                    'outer: for (li, (s, e, _)) in m.lines().iter().enumerate() {
+                        let mut units = 0u32;
+                        for c in m.text[*s..*e].chars() {
+                            if c.len_utf16() == 2 {
+                                found = Some([li as u32, units + 1]);
+                                break 'outer;
+                            }
+                            units += c.len_utf16() as u32;
+                        }
+                    }
+                }
+                if let Some(pos) = found {
+                    invalid_budget -= 1;
+                    let method = *rng.pick(REQ_METHODS);
+                    let mut p = PlannedOp::tagged(request(next_id, method, &uri, pos, &mut rng), "request.column.mid_surrogate");
+                    p.tags.push(format!("req.{method}"));
+                    ops.push(p);
+                    next_id += 1;
                 }
             }
             13..=14 if disk_budget > 0 => {
@@ -525,7 +594,16 @@ fn op_kinds(op: &Op, states: &BTreeMap<String, BTreeSet<Option<String>>>) -> Vec
         Op::Save { .. } => vec!["didSave".into()],
         Op::Cancel { .. } => vec!["cancelRequest".into()],
         Op::Watched { .. } => vec!["didChangeWatchedFiles".into()],
-        Op::Raw { .. } => vec!["raw".into()],
+        Op::Raw { msg } => {
+            let method = msg.get("method").and_then(|m| m.as_str()).unwrap_or("");
+            if msg.get("id").is_some() {
+                vec![format!("req.{method}"), "request.malformed_params".into()]
+            } else if method.starts_with("$/") {
+                vec!["notification.unknown_dollar_method".into()]
+            } else {
+                vec![format!("notification.{}", method.rsplit('/').next().unwrap_or(method))]
+            }
+        }
         Op::Disk(d) => vec![format!("disk.{}", match d {
             DiskOp::Write { .. } => "write",
             DiskOp::WriteBytes { .. } => "write_bytes",
